@@ -8,7 +8,9 @@ import (
 	"io"
 	"math"
 	"math/big"
+	"os"
 	"os/exec"
+	"sync"
 	"strconv"
 	"strings"
 	"time"
@@ -65,7 +67,30 @@ func (s *Solver) start() {
 		panic(err)
 	}
 	s.cmd, s.in, s.out = cmd, in, bufio.NewReaderSize(out, 1<<20)
+	registerSolver(cmd.Process.Pid)
 	s.emitted = map[int]bool{}
+}
+
+var (
+	solverMu   sync.Mutex
+	solverPids = map[int]bool{}
+)
+
+func registerSolver(pid int) {
+	solverMu.Lock()
+	solverPids[pid] = true
+	solverMu.Unlock()
+}
+
+// killAllSolvers is called from the signal handler so that a terminated run leaves no solver spinning.
+func killAllSolvers() {
+	solverMu.Lock()
+	for pid := range solverPids {
+		if p, err := os.FindProcess(pid); err == nil {
+			p.Kill()
+		}
+	}
+	solverMu.Unlock()
 }
 
 func (s *Solver) Close() {
@@ -112,6 +137,13 @@ func (s *Solver) roundtrip(txt string) ([]string, bool) {
 	}()
 	select {
 	case r := <-ch:
+		if !r.ok {
+			// the solver process died: start a fresh one for the next query
+			s.cmd.Process.Kill()
+			s.cmd.Wait()
+			s.restarts++
+			s.start()
+		}
 		return r.lines, r.ok
 	case <-time.After(time.Duration(s.timeoutMs)*time.Millisecond*2 + 20*time.Second):
 		// hung solver: kill and restart
